@@ -401,3 +401,25 @@ Proof.
   intros hs ev. simpl. unfold rtc_match.
   destruct (existsb (fun h => Nat.eqb (m_event h) ev && m_raises h) hs); discriminate.
 Qed.
+
+(* the hypotheses of error_isolated are inhabited: instance 1 of ex_state raises in its second step;
+   it and its child 3 are stopped, the bystander 2 and main 0 are untouched, the queued event
+   is still there, ColangError and the two FlowFailed events follow, the activated flow is
+   restarted (it had been STARTED) *)
+Example ex_error_isolated :
+  s_stop (slide 6 [EWaitInt true; EBlock BMatch; EStep; EStep; EBlock BMatch] ex_orc 2 []) = Raised 3 /\
+  exists st', advance true ex_prog ex_state 1 0 ex_orc = Some st' /\
+    option_map i_status (get st' 1) = Some Stopped /\ option_map i_status (get st' 3) = Some Stopped /\
+    get st' 2 = get ex_state 2 /\ get st' 0 = get ex_state 0 /\
+    queue st' = [EvStartFlow 1 1 true; EvOther 7; EvColangError; EvFlowFailed 3; EvFlowFailed 1].
+Proof. split; [reflexivity|]. eexists. split; [vm_compute; reflexivity|]. repeat split. Qed.
+
+(* with the repaired guard a flow that raises while still STARTING is not restarted *)
+Example ex_guard_blocks_restart :
+  let st0 := {| insts := [ mk_inst 0 Started [mk_head 3] None [1] 1;
+                           mk_inst 1 Waiting [mk_head 0] (Some 0) [] 1 ]; queue := [] |} in
+  (exists st', advance true ex_prog st0 1 0 (fun _ => ORaise) = Some st' /\
+               queue st' = [EvColangError; EvFlowFailed 1]) /\
+  (exists st', advance false ex_prog st0 1 0 (fun _ => ORaise) = Some st' /\
+               queue st' = [EvStartFlow 1 1 true; EvColangError; EvFlowFailed 1]).
+Proof. split; eexists; (split; [vm_compute; reflexivity|reflexivity]). Qed.
